@@ -180,6 +180,15 @@ def cases():
         ('remove_literal_statements', 'class_doc_used', 'class Documented:\n    """class docstring"""\n    attribute = 1\nprint(Documented.__doc__)\n', True),
         ('combine_imports', 'future_import', 'from __future__ import annotations\nfrom __future__ import division\nimport os\nimport sys\nprint(os.sep)\n', False),
         ('combine_imports', 'star_between', 'from os.path import join\nfrom os.path import *\nfrom os.path import split\nprint(join("a", "b"))\n', False),
+        ('remove_pass', 'pass_then_string_in_def', "def f():\n    pass\n    'not a docstring'\n    return 1\nprint(f.__doc__, f())\n", True),
+        ('remove_pass', 'pass_then_string_in_class', "class C:\n    pass\n    'not a docstring'\n    x = 1\nprint(C.__doc__, C.x)\n", True),
+        ('remove_pass', 'pass_then_string_in_module', "pass\n'not a docstring'\nprint(__doc__)\n", True),
+        ('remove_pass', 'pass_then_string_in_async_def', "async def f():\n    pass\n    'not a docstring'\nprint(f.__doc__)\n", True),
+        ('remove_asserts', 'assert_then_string_in_def', "def f():\n    assert True\n    'not a docstring'\n    return 1\nprint(f.__doc__, f())\n", True),
+        ('remove_debug', 'debug_then_string_in_def', "def f():\n    if __debug__:\n        pass\n    'not a docstring'\n    return 1\nprint(f.__doc__, f())\n", True),
+        ('remove_debug', 'debug_else_string_in_def', "def f():\n    if __debug__:\n        pass\n    else:\n        'not a docstring'\n    return 1\nprint(f.__doc__, f())\n", True),
+        ('remove_literal_statements', 'number_then_string_in_def', "def f():\n    0\n    'not a docstring'\n    return 1\nprint(f())\n", True),
+        ('remove_literal_statements', 'docstring_then_string_in_def', "def f():\n    'the docstring'\n    'not a docstring'\n    return 1\nprint(f())\n", True),
         ('combine_imports', 'relative_levels_same_module', 'try:\n    from .util import helper\n    from ..util import shared\n    from ...util import deep\n    from .util import other\nexcept ImportError as e:\n    print(type(e).__name__)\n', False),
         ('combine_imports', 'relative_and_absolute_same_module', 'try:\n    from util import helper\n    from .util import shared\n    from . import util\n    from .. import util as parent_util\nexcept ImportError as e:\n    print(type(e).__name__)\n', False),
         ('combine_imports', 'relative', 'try:\n    from . import sibling\n    from . import other\n    from .. import parent\nexcept ImportError as e:\n    print(type(e).__name__)\n', False),
